@@ -761,8 +761,36 @@ pub fn gen_f64_bits(rng: &mut Rng) -> u64 {
     }
 }
 
+/// What a backend declares for the parameters of a statement in its PREPARE reply. The declaration is
+/// the backend's (a type and flags per parameter, often a guess); how an execution's parameters are
+/// decoded is decided by the types the CLIENT binds. So the declarations vary - integer and other types,
+/// UNSIGNED, ZEROFILL, NOT NULL, BINARY - and nothing the monitors compare may depend on them.
 pub fn param_cols(n: usize) -> Vec<Column> {
-    (0..n).map(|i| simple_col(&format!("p{}", i), ColumnType::MYSQL_TYPE_VAR_STRING)).collect()
+    const TYPES: [ColumnType; 9] = [
+        ColumnType::MYSQL_TYPE_VAR_STRING,
+        ColumnType::MYSQL_TYPE_LONGLONG,
+        ColumnType::MYSQL_TYPE_VAR_STRING,
+        ColumnType::MYSQL_TYPE_LONG,
+        ColumnType::MYSQL_TYPE_SHORT,
+        ColumnType::MYSQL_TYPE_TINY,
+        ColumnType::MYSQL_TYPE_DOUBLE,
+        ColumnType::MYSQL_TYPE_BLOB,
+        ColumnType::MYSQL_TYPE_DATETIME,
+    ];
+    (0..n)
+        .map(|i| {
+            let k = i + n * 3;
+            let flags = match k % 7 {
+                0 | 1 => ColumnFlags::empty(),
+                2 => ColumnFlags::UNSIGNED_FLAG,
+                3 => ColumnFlags::UNSIGNED_FLAG | ColumnFlags::ZEROFILL_FLAG,
+                4 => ColumnFlags::NOT_NULL_FLAG,
+                5 => ColumnFlags::BINARY_FLAG,
+                _ => ColumnFlags::UNSIGNED_FLAG | ColumnFlags::NOT_NULL_FLAG,
+            };
+            Column { table: "t".into(), column: format!("p{}", i), coltype: TYPES[k % TYPES.len()], colflags: flags }
+        })
+        .collect()
 }
 
 /// Sequence-id check over the whole output (used by C05 and as a sanity layer elsewhere):
